@@ -280,7 +280,129 @@ fn run_case(c: &Case, rep: &mut CaseReport) -> Verdict {
     Verdict::Pass
 }
 
+/// A flush that FAILS (its segment directory cannot be created) keeps its passive buffer; the events stay readable from it
+/// while later rotations of the same shard flush successfully.
+#[derive(Clone, Debug, Serialize, Deserialize)]
+pub struct FailCase {
+    pub cfg: DbConfig,
+    pub n_ctx: usize,
+    /// stored while a regular file sits where the first L0 segment directory (00000) of every shard would be created
+    pub first: Vec<Ev>,
+    /// stored after the obstacle was removed
+    pub second: Vec<Ev>,
+    /// the failing flush: segment directory is a regular file
+    pub failed_flush: bool,
+}
+
+fn fail_case_strategy() -> BoxedStrategy<FailCase> {
+    (1usize..=2, 1usize..=3, 1usize..=2, 1usize..=3)
+        .prop_flat_map(|(shards, epz, ff, n_ctx)| {
+            let cfg = DbConfig { shard_count: shards, event_per_zone: epz, fill_factor: ff, ..DbConfig::default() };
+            let cap = cfg.capacity();
+            (Just(cfg), Just(n_ctx), prop::collection::vec(simple_ev(1, n_ctx), cap..=cap * 3 * shards), prop::collection::vec(simple_ev(1, n_ctx), cap..=cap * 4 * shards))
+        })
+        .prop_map(|(cfg, n_ctx, first, second)| FailCase { cfg, n_ctx, first, second, failed_flush: true })
+        .boxed()
+}
+
+fn run_fail_case(c: &FailCase, rep: &mut CaseReport) -> Verdict {
+    let types = simple_types()[..1].to_vec();
+    let mut w = match World::start("c03f", &c.cfg, &types, false) {
+        Ok(w) => w,
+        Err(e) => {
+            rep.inconclusive = Some(format!("start: {:?}", e));
+            return Verdict::Discard("start failed".into());
+        }
+    };
+    w.db.watchdog = std::time::Duration::from_secs(20);
+    let mut obstacles = vec![];
+    for s in 0..c.cfg.shard_count {
+        let d = w.case.path.join("cols").join(format!("shard-{}", s));
+        let _ = std::fs::create_dir_all(&d);
+        let o = d.join("00000");
+        if o.exists() || std::fs::write(&o, b"obstacle").is_err() {
+            return Verdict::Discard("obstacle could not be placed".into());
+        }
+        obstacles.push(o);
+    }
+    let cap = c.cfg.capacity();
+    let mut per_shard = vec![0usize; c.cfg.shard_count];
+    for e in &c.first {
+        if let Err(p) = w.store(e) {
+            return problem_verdict(p, &mut w, rep);
+        }
+        if let Some(m) = w.model.events.last() {
+            per_shard[m.shard] += 1;
+        }
+    }
+    if let Err(e) = w.db.barrier() {
+        return problem_verdict(Problem::Db(e), &mut w, rep);
+    }
+    let failed_shards: Vec<usize> = (0..c.cfg.shard_count).filter(|s| per_shard[*s] >= cap && obstacles[*s].is_file()).collect();
+    rep.sub_evals += 1;
+    match reads(&mut w, &types, c.n_ctx, "after-failed-flush", true, rep) {
+        Ok(Some((s, d))) => return Verdict::fail(format!("{} (failed flush)", s), d),
+        Ok(None) => {}
+        Err(e) => return problem_verdict(e, &mut w, rep),
+    }
+    for o in &obstacles {
+        if o.is_file() {
+            let _ = std::fs::remove_file(o);
+        }
+    }
+    let mut later = vec![0usize; c.cfg.shard_count];
+    for (i, e) in c.second.iter().enumerate() {
+        if let Err(p) = w.store(e) {
+            return problem_verdict(p, &mut w, rep);
+        }
+        if let Some(m) = w.model.events.last() {
+            later[m.shard] += 1;
+        }
+        // reads between the later rotations as well (every few stores)
+        // (settled first: an aggregate beside a flush in flight is the class of an open finding, explored by parked-reads)
+        if i % 3 == 2 {
+            if let Err(e) = w.db.barrier() {
+                return problem_verdict(Problem::Db(e), &mut w, rep);
+            }
+            rep.sub_evals += 1;
+            match reads(&mut w, &types, c.n_ctx, "between-later-stores", true, rep) {
+                Ok(Some((s, d))) => return Verdict::fail(format!("{} (failed flush)", s), d),
+                Ok(None) => {}
+                Err(e) => return problem_verdict(e, &mut w, rep),
+            }
+        }
+    }
+    if let Err(e) = w.db.barrier() {
+        return problem_verdict(Problem::Db(e), &mut w, rep);
+    }
+    rep.sub_evals += 1;
+    match reads(&mut w, &types, c.n_ctx, "after-later-successful-flush", true, rep) {
+        Ok(Some((s, d))) => return Verdict::fail(format!("{} (failed flush)", s), d),
+        Ok(None) => {}
+        Err(e) => return problem_verdict(e, &mut w, rep),
+    }
+    let later_success = failed_shards.iter().any(|s| per_shard[*s] % cap + later[*s] >= cap && w.case.path.join("cols").join(format!("shard-{}", s)).read_dir().map(|d| d.flatten().any(|e| e.path().is_dir())).unwrap_or(false));
+    if !failed_shards.is_empty() {
+        rep.label("failed-flush:happened");
+    }
+    if later_success {
+        rep.label("failed-flush:then-successful-flush-on-same-shard");
+        rep.nontrivial = true;
+    }
+    rep.sample = Some(json!({"config": {"shards": c.cfg.shard_count, "capacity": cap}, "first": c.first.len(), "second": c.second.len(), "failed_shards": failed_shards, "later_success": later_success}));
+    if !w.db.panics.is_empty() {
+        return Verdict::fail("panic-in-worker", json!({"panics": w.db.panics, "log": w.db.log}));
+    }
+    Verdict::Pass
+}
+
 pub fn replay(_check: &str, case: &Value) -> Verdict {
+    if case.get("failed_flush").is_some() {
+        return match serde_json::from_value::<FailCase>(case.clone()) {
+            Ok(c) => run_fail_case(&c, &mut CaseReport::default()),
+            Err(e) => Verdict::Discard(format!("bad case: {}", e)),
+        };
+    }
     match serde_json::from_value::<Case>(case.clone()) {
         Ok(c) => run_case(&c, &mut CaseReport::default()),
         Err(e) => Verdict::Discard(format!("bad case: {}", e)),
@@ -323,6 +445,13 @@ pub fn run(ctx: &Ctx) -> i32 {
     }
     if let Some(f) = explore(ctx, "parked-reads", || case_strategy(tier, steps.clone(), single, single_shard), Explore { cases, max_shrink_iters: ctx.tier.pick(100, 400), lanes: ctx.lanes }, &stats, run_case) {
         report.violations.push(f);
+    }
+    // second exploration: a flush that fails keeps its events readable, also across later successful flushes
+    if report.violations.is_empty() {
+        let cases2 = ctx.tier.pick(64, 600);
+        if let Some(f) = explore(ctx, "failed-flush", fail_case_strategy, Explore { cases: cases2, max_shrink_iters: ctx.tier.pick(60, 300), lanes: ctx.lanes }, &stats, run_fail_case) {
+            report.violations.push(f);
+        }
     }
     finish(ctx, stats.into_inner().unwrap(), report)
 }
